@@ -81,7 +81,8 @@ META = {
     "C04": {"engine": "seqx", "design_ref": "DESIGN.md §4 C04", "technique": "explicit-state model checking of the implementation: breadth-first search over operation histories to fixpoint, compared with a bounded std::deque",
             "text": "Breadth-first search to fixpoint over the (overwrite, capacity, head, size) layouts of the real RingBuffer<int> for capacities 1..5 (thorough 1..7): every operation (push/emplace/pop at both ends, resize to every capacity, copy, move, self/copy/move assignment) "
                     "is applied in every reachable layout and the whole public API (size, capacity, [], both iterator kinds with arithmetic, front/back, return values, operator== across overwrite modes) is compared with a capacity-bounded std::deque; "
-                    "plus every history to depth 4 (thorough 6) without state merging. Runs under ASan+UBSan with assertions on.",
+                    "plus every history to depth 4 (thorough 6) without state merging, one more operation of every kind after each transition into a known state, pushes whose argument is an element of the buffer itself, a heap-owning element type, "
+                    "and operator== on values whose bytes differ from their equality (-0.0, NaN, a struct that ignores a field). Runs under ASan+UBSan with assertions on.",
             "note": _E2_NOTE},
     "C09": {"engine": "seqx", "design_ref": "DESIGN.md §4 C09", "technique": "explicit-state model checking of the implementation with a lifetime-tracking element type under AddressSanitizer",
             "text": "The C04 search with a bitwise-relocatable element type whose objects carry serial numbers: a registry knows for every object whether it holds a value, is a moved-from shell or was destroyed. After every transition the values held by "
@@ -89,7 +90,8 @@ META = {
             "note": _E2_NOTE},
     "C14": {"engine": "seqx", "design_ref": "DESIGN.md §4 C14", "technique": "explicit-state model checking of the implementation: breadth-first search over construction paths and operation histories, std::vector model, lifetime-tracking elements, ASan",
             "text": "From every construction path (pointer+length, initializer list, size, size+fill, default, adopted storage) x length 0..3 (thorough 0..4), for int and a lifetime-tracked class type, breadth-first to fixpoint with copy (incl. write-through test), "
-                    "move, copy-/move-assign, swap, resize(n), resize(n,v), writes, self-assignment; contents, sizes, iteration and the set of live element objects are compared with std::vector models after every step; plus all histories to depth 3 (thorough 4).",
+                    "move, copy-/move-assign, swap, resize(n), resize(n,v), writes, self-assignment; contents, sizes, iteration and the set of live element objects are compared with std::vector models after every step; plus all histories to depth 3 (thorough 4); a third element type (trivially copyable class with member initialisers), "
+                    "floating-point fill values compared bit for bit, a named initializer list feeding two arrays, growth one element beyond an adopted block.",
             "note": _E2_NOTE},
     "C11": {"engine": "vsched", "design_ref": "DESIGN.md §4 C11", "technique": "stateless model checking of the implementation: exhaustive preemption-bounded schedule enumeration, brute-force linearizability check of every recorded history against the sequential router",
             "text": "2-4 threads with one or two router operations each (notify with wildcard/regex/concrete patterns, subscribe, USubscription::unsubscribe, shrink, exists, depth) collide on the same keys of a pre-populated ConcurrentSubjectRouter; callbacks contain scheduling points. "
@@ -134,7 +136,9 @@ META = {
             "note": _E2_NOTE},
     "C07": {"engine": "vsched", "design_ref": "DESIGN.md §4 C07", "technique": "stateless model checking of the implementation: exhaustive preemption-bounded schedule enumeration, task life-cycle oracle over the event log",
             "text": "Every schedule (owner + workers, every notify_one target) with <= c preemptions of owner scripts over start/clear/stop/wait with 1-4 instrumented tasks and 1-3 workers runs on the real ThreadPool, plain and under AddressSanitizer. "
-                    "Per task: run at most once, destroyed exactly once and never before/during run; run exactly once unless cleared/stopped first (a lost task deadlocks the owner's wait); nothing runs after stop() returned; one worker runs in submission order.",
+                    "Per task: run at most once, destroyed exactly once and never before/during run; run exactly once unless cleared/stopped first (a lost task deadlocks the owner's wait); nothing runs after stop() returned; one worker runs in submission order. "
+                    "Scripts also submit functors through the template start() (temporaries and named objects that die right after the call), let one thread creation fail with EAGAIN (start() throws, the pool still owns the task), allow one spurious wake-up, "
+                    "and a stateful pass explores ALL schedules of 18 scripts without a preemption bound.",
             "note": _E1_NOTE + " Non-expiring workers as the property states; ThreadPool runs with new_delete_type_mismatch=0 (PooledThread is deleted through Thread*, out of scope)."},
     "C08": {"engine": "vsched", "design_ref": "DESIGN.md §4 C08", "technique": "stateless model checking of the implementation: exhaustive preemption-bounded schedule enumeration with deadlock detection around stop()",
             "text": "Same owner scripts as C07, scheduling points also after every unlock. A deadlock with the owner inside stop() is a violation; after stop(): getThreadCount()==0, no task running, every queued task destroyed, restart works; "
